@@ -256,4 +256,8 @@ pub mod verif {
     // (the loaded graph itself is reached through `Model::verif_graph`).
     pub use crate::infer_shapes::{InferError, InferResult, InferShapeOptions, Shape, infer_shapes};
     pub use crate::operator::{OutputType, OutputTypeList, OutputTypesContext};
+    // C02: run_plan bookkeeping event log + never-in-place reference switch;
+    // subgraph access for describing nested runs.
+    pub use crate::graph::verif_exec as exec_trace;
+    pub use crate::operator::SubgraphOperator;
 }
